@@ -11,14 +11,35 @@ from falsify import common
 KNOWN_ADD = 'C20-add-placement-literal'
 
 
+_impl_cache = {}
+
+
+def impl_spec(ifs, ks):
+    """implementedBy(a class declared to implement ifs[k] for k in ks, subclass of a class implementing ifs[0])"""
+    key = (tuple(id(i) for i in ifs), ks)
+    if key not in _impl_cache:
+        Base = type(common.uname('KB'), (object,), {})
+        classImplements(Base, ifs[0])
+        K = type(common.uname('KI'), (Base,), {})
+        classImplements(K, *[ifs[k] for k in ks])
+        _impl_cache[key] = implementedBy(K)
+    return _impl_cache[key]
+
+
 def flat(args, ifs):
-    """expected iteration order of Declaration(*args): nested sequences/declarations flattened in place, dedupe"""
+    """expected iteration order of Declaration(*args): nested sequences/declarations flattened in place, class
+    specifications contribute their declared then inherited interfaces, no duplicates"""
     out = []
 
     def add(x):
         if isinstance(x, int):
             if not any(ifs[x] is y for y in out):
                 out.append(ifs[x])
+        elif isinstance(x, tuple) and x and x[0] == 'impl':
+            for k in x[1]:
+                if not implementedBy_base_implies(ifs, k):
+                    add(k)
+            add(0)
         else:
             for y in x:
                 add(y)
@@ -26,10 +47,17 @@ def flat(args, ifs):
     return out
 
 
+def implementedBy_base_implies(ifs, k):
+    # classImplements drops an interface the base class already implies (it is then listed through the base)
+    return ifs[0].isOrExtends(ifs[k]) if k != 0 else True
+
+
 def mk(args, ifs, as_decl_depth=0):
     def conv(x, depth):
         if isinstance(x, int):
             return ifs[x]
+        if isinstance(x, tuple) and x and x[0] == 'impl':
+            return impl_spec(ifs, x[1])
         inner = [conv(y, depth + 1) for y in x]
         return Declaration(*inner) if depth % 2 == 1 else tuple(inner)
     return Declaration(*[conv(a, 1) for a in args])
@@ -124,6 +152,7 @@ def arg_trees(n):
         for t in itertools.permutations(idx, k):
             out.append(t)
     out += [((0,), 1) if n > 1 else ((0,),), ((0, (n - 1,)),), (n - 1, (0, n - 1))]
+    out += [(('impl', (n - 1,)),), (('impl', (n - 1,)), n - 1, 0), (0, ('impl', (n - 1,))), (('impl', ()), 0)]
     return out
 
 
